@@ -18,7 +18,7 @@ RULE = ("tasks_limit {1,2,3,10,1000} x 1-3 queues sharing the limit x duration p
         "arrivals, failures, n bucket); trivial = runs where the limit was never reached and limit < 1000")
 ASSUMPTIONS = ["Redis and RabbitMQ are wire-level fakes", "virtual time; 'eventually' restated as: all n jobs executed by sum(d)/limit + max(d) + n*delta + last arrival + 12 s, refill of a freed slot within 3 s"]
 EVAL_COUNTER = "entries_judged"
-REQUIRED = ["entries_judged", "runs_saturated", "arrival_slot_free", "arrival_burst", "refills_judged"]
+REQUIRED = ["entries_judged", "runs_saturated", "arrival_slot_free", "arrival_burst", "refills_judged", "thread_runs"]
 CASE_TIMEOUT = 150
 
 LIMITS = [1, 2, 3, 10, 1000]
@@ -37,7 +37,61 @@ def gen_cases(tier, seed):
         for l, nq, d, a, f in combos[:n]:
             cases.append({"kind": kind, "limit": l, "nq": nq, "dur": d, "arr": a, "fail": f, "n": rnd.choice([6, 12, 25]) if l < 10 else rnd.choice([15, 40]),
                           "seed": rnd.randrange(10**6), "latency": None if kind == "mem" else rnd.choice([None, 0.002])})
+    # real threads, real time: synchronous actors through the ThreadPoolExecutor path of asyncify (no virtual loop)
+    for l in (1, 2, 3):
+        cases.append({"kind": "mem", "type": "threads", "limit": l, "n": 14, "seed": rnd.randrange(10**6)})
     return cases
+
+
+def threads_case(case, out, stats, fps):
+    """Smoke scenario on the stock loop: sync actors really run in worker threads; the in-flight counter is kept under a lock."""
+    import threading
+    import time as _t
+
+    from repid import Connection, Job, Router, Worker
+    from repid.connections import InMemoryMessageBroker
+    from repid.converter import BasicConverter
+    from repid.router import RouterDefaults
+    from rv.sim.loop import wall_passthrough
+
+    wall_passthrough()
+    lock = threading.Lock()
+    st = {"cur": 0, "max": 0, "done": 0, "threads": set()}
+
+    async def main():
+        conn = Connection(InMemoryMessageBroker())
+        await conn.connect()
+        r = Router(defaults=RouterDefaults(converter=BasicConverter))
+
+        def sync_actor(x: int = 0):
+            with lock:
+                st["cur"] += 1
+                st["max"] = max(st["max"], st["cur"])
+                st["threads"].add(threading.get_ident())
+            _t.sleep(0.03)
+            with lock:
+                st["cur"] -= 1
+                st["done"] += 1
+
+        r.actor(name="sync_actor")(sync_actor)
+        await conn.message_broker.queue_declare("default")
+        for i in range(case["n"]):
+            await Job("sync_actor", id_=f"t{i}", args={"x": i}, store_result=False, _connection=conn).enqueue()
+        w = Worker(routers=[r], tasks_limit=case["limit"], messages_limit=case["n"], handle_signals=[], _connection=conn)
+        await asyncio.wait_for(w.run(), 60)
+        await conn.disconnect()
+
+    asyncio.run(main())
+    stats["entries_judged"] += case["n"]
+    stats["thread_runs"] += 1
+    fps.add(f"threads/{case['limit']}/{len(st['threads']) > 1}")
+    main_thread = threading.get_ident()
+    if st["max"] > case["limit"]:
+        out.append(V("over_limit", "mem", f"threads/limit={case['limit']}", f"{st['max']} synchronous actors ran at once in worker threads with tasks_limit={case['limit']}"))
+    if st["done"] < min(case["n"], case["n"]):
+        out.append(V("stall", "mem", "threads", f"only {st['done']} of {case['n']} sync jobs completed"))
+    if main_thread in st["threads"]:
+        out.append(V("harness_or_api_error", "mem", "threads", "sync actor ran on the event-loop thread"))
 
 
 def V(rule, kind, ctx, detail):
@@ -177,6 +231,9 @@ def run_case(case):
 
     stats = collections.Counter()
     out, fps, samples = [], set(), []
+    if case.get("type") == "threads":
+        threads_case(case, out, stats, fps)
+        return {"fp": None, "fps": sorted(fps), "viol": out[:4], "stats": dict(stats)}
     res = vl.run(lambda loop: scenario(loop, case, out, stats, fps, samples), max_steps=6_000_000, seed=case["seed"])
     if res.exc is not None:
         if isinstance(res.exc, vl.Deadlock):
